@@ -17,9 +17,9 @@ ALL_KINDS = '{"sr", "rr", "sdes", "bye", "app", "unk", "tfb", "pfb", "custom", "
 WRITER_PROPS = ["C01", "C06", "C07", "C14", "C16", "C17", "C19", "C20"]
 
 
-def W(kinds, d, fam=False, wrap=False, pad=False):
+def W(kinds, d, fam=False, wrap=False, pad=False, inter=False):
     return {"Kinds": kinds, "D": d, "FamOn": "TRUE" if fam else "FALSE", "WrapOn": "TRUE" if wrap else "FALSE",
-            "PadOps": "TRUE" if pad else "FALSE"}
+            "PadOps": "TRUE" if pad else "FALSE", "Observe": "TRUE" if inter else "FALSE"}
 
 
 def tla_set(xs):
@@ -73,25 +73,25 @@ FRAME_PLAN = ("MC_Bytes", {"quick": FRAME_Q, "thorough": FRAME_T}, {"quick": 600
 PLAN = {
     "C01": [FRAME_PLAN, ("MC_Bytes", {"quick": SDES_Q, "thorough": SDES_T}, {"quick": 6000, "thorough": 100000}),
             ("MC_Bytes", {"quick": FCI_Q, "thorough": FCI_T}, {"quick": 3000, "thorough": 100000})],
-    "C08": [FRAME_PLAN],
+    "C08": [("MC_Bytes", {"quick": FRAME_Q, "thorough": FRAME_T}, {"thorough": 300000})],
     "C09": [FRAME_PLAN, ("MC_Writer", {"quick": W('{"sr", "rr", "bye", "app", "tfb", "pfb"}', 2), "thorough": W('{"sr", "rr", "bye", "app", "tfb", "pfb"}', 3, fam=True)},
                          {"quick": 3000, "thorough": 60000})],
     "C12": [FRAME_PLAN],
     "C18": [FRAME_PLAN, ("MC_Bytes", {"quick": SDES_Q, "thorough": SDES_T}, {"quick": 5000, "thorough": 100000})],
     "C10": [("MC_Bytes", {"quick": SDES_Q, "thorough": SDES_T}, {}), ("MC_Bytes", {"thorough": SDES_T2}, {})],
     "C02": [("MC_Writer", {"quick": W('{"sr", "rr"}', 2), "thorough": W('{"sr", "rr"}', 3, wrap=True)}, {})],
-    "C03": [("MC_Writer", {"quick": W('{"sdes"}', 2, fam=True), "thorough": W('{"sdes"}', 3, fam=True, wrap=True)}, {})],
+    "C03": [("MC_Writer", {"quick": W('{"sdes"}', 2, fam=True, inter=True), "thorough": W('{"sdes"}', 3, fam=True, wrap=True, inter=True)}, {})],
     "C04": [("MC_Writer", {"quick": W('{"bye", "app"}', 2), "thorough": W('{"bye", "app"}', 3, wrap=True)}, {})],
-    "C05": [("MC_Writer", {"quick": W('{"tfb", "pfb"}', 1, fam=True), "thorough": W('{"tfb", "pfb"}', 2, fam=True, wrap=True)}, {})],
-    "C06": [("MC_Writer", {"quick": W(ALL_KINDS, 2, wrap=True), "thorough": W(ALL_KINDS, 3, fam=True, wrap=True)}, {"quick": 4000, "thorough": 60000})],
-    "C07": [("MC_Writer", {"quick": W(ALL_KINDS, 2, wrap=True), "thorough": W(ALL_KINDS, 3, fam=True, wrap=True)}, {"quick": 4000, "thorough": 60000})],
+    "C05": [("MC_Writer", {"quick": W('{"tfb", "pfb"}', 1, fam=True, inter=True), "thorough": W('{"tfb", "pfb"}', 2, fam=True, wrap=True, inter=True)}, {})],
+    "C06": [("MC_Writer", {"quick": W(ALL_KINDS, 2, wrap=True, inter=True), "thorough": W(ALL_KINDS, 3, fam=True, wrap=True, inter=True)}, {"quick": 4000, "thorough": 60000})],
+    "C07": [("MC_Writer", {"quick": W(ALL_KINDS, 2, wrap=True, inter=True), "thorough": W(ALL_KINDS, 3, fam=True, wrap=True, inter=True)}, {"quick": 4000, "thorough": 60000})],
     "C13": [("MC_Writer", {"quick": W('{"sr", "rr", "sdes", "bye", "app", "tfb", "pfb"}', 2, pad=True),
                            "thorough": W('{"sr", "rr", "sdes", "bye", "app", "tfb", "pfb"}', 2, fam=True, pad=True)}, {"quick": 3000})],
-    "C14": [("MC_Writer", {"quick": W('{"compound"}', 3, wrap=True), "thorough": W('{"compound"}', 4, wrap=True)}, {})],
-    "C16": [("MC_Writer", {"quick": W(ALL_KINDS, 2), "thorough": W(ALL_KINDS, 3, fam=True)}, {"quick": 4000, "thorough": 60000})],
+    "C14": [("MC_Writer", {"quick": W('{"compound"}', 3, wrap=True, inter=True), "thorough": W('{"compound"}', 4, wrap=True, inter=True)}, {})],
+    "C16": [("MC_Writer", {"quick": W(ALL_KINDS, 2, inter=True), "thorough": W(ALL_KINDS, 3, fam=True, inter=True)}, {"quick": 4000, "thorough": 60000})],
     "C17": [("MC_Writer", {"quick": W(ALL_KINDS, 2, wrap=True), "thorough": W(ALL_KINDS, 3, fam=True, wrap=True)}, {"quick": 4000, "thorough": 60000})],
     "C19": [FRAME_PLAN, ("MC_Writer", {"quick": W('{"unk", "custom"}', 3, wrap=True), "thorough": W('{"unk", "custom"}', 4, wrap=True)}, {})],
-    "C20": [("MC_Writer", {"quick": W(ALL_KINDS, 2, fam=True, wrap=True), "thorough": W(ALL_KINDS, 3, fam=True, wrap=True)}, {"quick": 5000, "thorough": 80000})],
+    "C20": [("MC_Writer", {"quick": W(ALL_KINDS, 2, fam=True, wrap=True, inter=True), "thorough": W(ALL_KINDS, 3, fam=True, wrap=True, inter=True)}, {"quick": 5000, "thorough": 80000})],
     "C15": [("MC_Bytes", {"quick": FCI_Q, "thorough": FCI_T}, {"quick": 8000, "thorough": 200000}), ("MC_Nack", {"quick": {"MaxWords": 1, "MaxSecond": 1}, "thorough": {"MaxWords": 2, "MaxSecond": 1}}, {"quick": None, "thorough": 20000})],
     "C11": [("MC_Compound", {"quick": {"MaxTiles": 2, "Extra": 3}, "thorough": {"MaxTiles": 3, "Extra": 3}}, {})],
 }
